@@ -65,9 +65,9 @@ func (g *gen) decls(exported bool) (decls []string, prints []string) {
 					ints = append(ints, vn)
 				}
 				if t.typ == "[]int" {
-					prints = append(prints, vn+"[0]")
+					prints = append(prints, "@"+vn+"[0]")
 				} else {
-					prints = append(prints, vn)
+					prints = append(prints, "@"+vn)
 				}
 			}
 		}
@@ -88,7 +88,7 @@ func (g *gen) decls(exported bool) (decls []string, prints []string) {
 		}
 		decls = append(decls, fmt.Sprintf("var %s = %s", vn, e))
 		ints = append(ints, vn)
-		prints = append(prints, vn)
+		prints = append(prints, "@"+vn)
 	}
 	// several functions on one line
 	if g.r.Intn(2) == 0 {
@@ -96,7 +96,7 @@ func (g *gen) decls(exported bool) (decls []string, prints []string) {
 		for k := 2 + g.r.Intn(4); k > 0; k-- {
 			fn := name("s")
 			line = append(line, fmt.Sprintf("func %s() int { return %d }", fn, g.r.Intn(100)))
-			prints = append(prints, fn+"()")
+			prints = append(prints, "@"+fn+"()")
 		}
 		g.shuffle(line)
 		decls = append(decls, strings.Join(line, "; "))
@@ -105,32 +105,32 @@ func (g *gen) decls(exported bool) (decls []string, prints []string) {
 	if len(ints) > 0 {
 		c := name("c")
 		decls = append(decls, fmt.Sprintf("var %s = func(d int) int { return d + %s }", c, ints[g.r.Intn(len(ints))]))
-		prints = append(prints, c+"(1)")
+		prints = append(prints, "@"+c+"(1)")
 	}
 	// predeclared identifiers used at other types / boxed: they live in a scope shared by all builds
 	switch g.r.Intn(4) {
 	case 0:
 		bt, bv := g.id("B"), name("b")
 		decls = append(decls, fmt.Sprintf("type %s bool", bt), fmt.Sprintf("var %s %s = %s", bv, bt, []string{"true", "false"}[g.r.Intn(2)]))
-		prints = append(prints, bv)
+		prints = append(prints, "bool(@"+bv+")") // (a value of a type defined in the program reaches Print wrapped)
 	case 1:
 		fn := name("y")
 		decls = append(decls, fmt.Sprintf("func %s() string {\n\tvar x interface{} = %s\n\tswitch x.(type) {\n\tcase bool:\n\t\treturn \"bool\"\n\t}\n\treturn \"other\"\n}", fn, []string{"true", "false"}[g.r.Intn(2)]))
-		prints = append(prints, fn+"()")
+		prints = append(prints, "@"+fn+"()")
 	case 2:
 		it, iv := g.id("I"), name("n")
 		decls = append(decls, fmt.Sprintf("type %s int", it), fmt.Sprintf("const %s %s = iota + 1", iv, it))
-		prints = append(prints, iv)
+		prints = append(prints, "int(@"+iv+")")
 	}
 	k1, k2 := name("k"), name("k")
 	decls = append(decls, fmt.Sprintf("const (\n\t%s = iota + %d\n\t%s\n)", k1, g.r.Intn(9), k2))
-	prints = append(prints, k1, k2)
+	prints = append(prints, "@"+k1, "@"+k2)
 	tn := name("t")
 	if !exported {
 		tn = g.id("T")
 	}
 	decls = append(decls, fmt.Sprintf("type %s struct { A, B int }", tn))
-	prints = append(prints, fmt.Sprintf("%s{1, 2}.B", tn))
+	prints = append(prints, fmt.Sprintf("@%s{1, 2}.B", tn))
 	g.shuffle(decls)
 	return
 }
@@ -155,8 +155,11 @@ func (g *gen) programFS() map[string]string {
 		}
 		decls, prints := g.decls(false)
 		b.WriteString(strings.Join(decls, "\n") + "\n\n")
+		for i := range prints {
+			prints[i] = strings.ReplaceAll(prints[i], "@", "")
+		}
 		for _, p := range pp {
-			prints = append(prints, "pkg."+p)
+			prints = append(prints, strings.ReplaceAll(p, "@", "pkg."))
 		}
 		g.mainFunc(&b, prints)
 		files["main.go"] = b.String()
@@ -166,6 +169,9 @@ func (g *gen) programFS() map[string]string {
 		b.WriteString("import \"strings\"\nimport \"strconv\"\nvar up = strings.ToUpper(strconv.Itoa(7))\n")
 	}
 	decls, prints := g.decls(false)
+	for i := range prints {
+		prints[i] = strings.ReplaceAll(prints[i], "@", "")
+	}
 	b.WriteString(strings.Join(decls, "\n") + "\n\n")
 	g.mainFunc(&b, prints)
 	files["main.go"] = b.String()
